@@ -57,6 +57,10 @@ structure Lang where
   /-- `SyntaxKind::from(TokenKind)` -/
   toSyntax : Nat → Nat
 
+/-- A small language for the concrete instances in `Props/C12.lean`: kinds 0 = whitespace (trivia),
+1 = ident, 2 = `+`, 10 = IntLiteral, 11 = Dot, 12 = DotDot, 99 = Eof. -/
+def exL : Lang := ⟨10, 11, 12, 99, fun k => k == 0, fun k => k⟩
+
 /-! ## Text -/
 
 /-- `str::is_char_boundary` on the UTF-8 bytes: the end of the text, or a byte that is not a
